@@ -111,6 +111,9 @@ def run(repo, rep):
     rep.clause("C17-p", "every Ethos-U custom operator is wired to the memory tensors (command stream included) of its own callee subgraph, read in the same iteration")
     rep.clause("C17-q", "a tensor's data is written to the buffer the tensor table names for it; buffers are shared only under a key that covers the whole data")
     rule_round10(repo, rep)
+    rep.clause("C17-r", "every stream is framed, the empty one included: the command-stream action and the copy of the words dominate the return of create_driver_payload")
+    rep.clause("C17-s", "the writer's tensor table is keyed by tensor objects: a model tensor named like a generated command stream tensor cannot replace it")
+    rule_round11(repo, rep)
     rep.clause("C17-l", "the size guard rejects exactly the lengths that do not fit 24 bits; the empty stream is accepted")
     rule_length_guard_exact(repo, rep, mod)
     rep.clause("C17-m", "buffers are 16-byte aligned in the written file (Prep(16)), so that the payload's own 16-byte alignment of the command words holds in the file")
@@ -645,3 +648,45 @@ def rule_round10(repo, rep):
         raise AnalysisError("serialise_tensor: no store into buffers_to_write")
     for st in stores:
         rep.check(str(norm(st.targets[0].slice)) == "buf_id", "C17-q", gsite, f"`{str(norm(st))[:70]}` stores the data under the tensor's buffer index", "indexed by something else")
+
+
+def rule_round11(repo, rep):
+    """(r) create_driver_payload frames every stream, the empty one included: the command-stream action (NOP padding + tag word with the
+    length) and the copy of the words are on every path that reaches the return (CFG: no path from entry to the return avoids
+    emit_cmd_stream_header / the extend of the words).
+    (s) the writer's table of tensors is keyed by the tensor objects, so that two tensors of the same name (a model tensor called like a
+    generated command stream tensor) both reach the file: every store into serialise_subgraph's tensor collection uses the tensor itself as
+    key, and its initialisation is dict.fromkeys(<tensors>) / a display of tensors."""
+    m = repo.mod("driver_actions")
+    fn = m.func("create_driver_payload")
+    site = f"{DA}:create_driver_payload" if "DA" in globals() else "ethosu/vela/driver_actions.py:create_driver_payload"
+    c = cfg_of(fn)
+    rets = [n_ for n_ in c.nodes[3:] if n_.stmt is not None and isinstance(n_.stmt, ast.Return)]
+    hdr = c.nodes_where(lambda n_: n_.stmt is not None and n_.kind != "test" and "emit_cmd_stream_header(" in str(norm(n_.stmt)))
+    ext = c.nodes_where(lambda n_: n_.stmt is not None and n_.kind != "test" and ".extend(register_command_stream)" in str(norm(n_.stmt)))
+    if not rets:
+        raise AnalysisError("create_driver_payload: no return")
+    for r_ in rets:
+        rep.check(bool(hdr) and any(c.dominates(h_, r_.id) for h_ in hdr), "C17-r", site, "the command-stream action precedes the return on every path", "a path reaches the return without emit_cmd_stream_header: an empty stream is framed as COP1 + configuration only, with no action declaring 0 words")
+        rep.check(bool(ext) and any(c.dominates(e_, r_.id) for e_ in ext), "C17-r", site, "the words are appended on every path that returns", "a path reaches the return without appending the words")
+    wm = repo.mod("tflite_writer")
+    g = wm.func("TFLiteSerialiser.serialise_subgraph")
+    gsite = "ethosu/vela/tflite_writer.py:TFLiteSerialiser.serialise_subgraph"
+    inits = [st for st in ast.walk(g) if isinstance(st, ast.Assign) and str(norm(st.targets[0])) == "tensor_set"]
+    if len(inits) != 1:
+        raise AnalysisError(f"serialise_subgraph: {len(inits)} definitions of the tensor collection")
+    v = inits[0].value
+    ok_init = (isinstance(v, ast.Call) and str(norm(v.func)) == "dict.fromkeys") or (isinstance(v, ast.Dict) and not v.keys)
+    rep.check(ok_init, "C17-s", gsite, f"`{str(norm(inits[0]))[:80]}` is keyed by the tensor objects", "the collection is keyed by something derived from the tensors (names): two tensors of one name collapse into one entry")
+    n = 0
+    for st in ast.walk(g):
+        keys = []
+        if isinstance(st, ast.Assign) and isinstance(st.targets[0], ast.Subscript) and str(norm(st.targets[0].value)) == "tensor_set":
+            keys.append(st.targets[0].slice)
+        if isinstance(st, ast.Expr) and isinstance(st.value, ast.Call) and isinstance(st.value.func, ast.Attribute) and str(norm(st.value.func.value)) == "tensor_set" and st.value.func.attr in ("setdefault", "update", "__setitem__") and st.value.args:
+            keys.append(st.value.args[0])
+        for k_ in keys:
+            n += 1
+            rep.check(isinstance(k_, ast.Name), "C17-s", gsite, f"`{str(norm(st))[:70]}` uses the tensor itself as key", f"key `{str(norm(k_))}`: a model tensor named like a generated command stream tensor replaces it - the Ethos-U operator is written with input -1 and no payload")
+    if n < 1:
+        raise AnalysisError("serialise_subgraph: no store into the tensor collection")
